@@ -363,6 +363,20 @@ func notifyNameChange(pn *pathNode) {
 // Precondition: this must be called via safelyGlobal.
 func (f *fidRef) renameChildTo(oldName string, target *fidRef, newName string) {
 	target.markChildDeleted(newName)
+
+	// The path node of the renamed entry moves along with the references.
+	// This is deferred so that it also happens if the backend panics in
+	// one of the notifications below: the references are listed under the
+	// new name by then, and must find their path node there.
+	f.pathNode.childMu.RLock()
+	movedPathNode := f.pathNode.childNodes[oldName]
+	f.pathNode.childMu.RUnlock()
+	if movedPathNode != nil {
+		defer func() {
+			// Replace the previous (now deleted) path node.
+			target.pathNode.addPathNodeFor(newName, movedPathNode)
+		}()
+	}
 	origPathNode := f.pathNode.removeWithName(oldName, func(ref *fidRef) {
 		// The reference is re-parented and listed under its new name
 		// before anything calls into the backend (Renamed, and Close
@@ -383,8 +397,6 @@ func (f *fidRef) renameChildTo(oldName string, target *fidRef, newName string) {
 	})
 
 	if origPathNode != nil {
-		// Replace the previous (now deleted) path node.
-		target.pathNode.addPathNodeFor(newName, origPathNode)
 		// Call Renamed on all children.
 		notifyNameChange(origPathNode)
 	}
